@@ -125,6 +125,11 @@ def prune(quick):
                     stub_realloc=False, functions=FN_R, exclude='F-PRUNE-NAN',
                     bounds='1 row group, min and/or max may be the canonical quiet NaN (then that bound is not assumed), NaN-free value and probe, all operators'))
     # BOOLEAN is outside the property's reader-API quantifier; kept because the code accepts it (1-byte plain values)
+    # statistics of the wrong size for a fixed-width column (hostile / malformed footer): exact-size heap objects of 1..W-1 bytes
+    for t_, lab_ in ((1, 'i32'), (2, 'i64'), (4, 'float'), (5, 'double')) if True else ():
+        o.append(E1('prune-match/%s/rg1/stats-of-wrong-size' % lab_, HR, SRC_R, ['-DMODE=1', '-DTYPE=%d' % t_, '-DLEN=0', '-DNRG=1', '-DBADLEN'], unwind=14, backends=SAT, timeout=240, stub_realloc=False,
+                    bounds='one row group, min / max statistics of 1..W bytes (at least one shorter than the type width) in exact-size heap objects, every probe and operator: no access outside them, the group is kept',
+                    functions=['carquet_reader_row_group_matches', 'carquet_reader_column_statistics']))
     o.append(E1('prune-match/bool/rg1', HR, SRC_R, ['-DMODE=1', '-DTYPE=0', '-DNRG=1'], unwind=14, backends=SAT, timeout=240, stub_realloc=False,
                 functions=FN_R, exclude='F-PRUNE-BOOL4', bounds='BOOLEAN column (beyond the property quantifier): 1-byte min, max, value and probe in exact-size heap objects'))
     return o
